@@ -12,6 +12,7 @@ import math
 from simkit import bootstrap
 from simkit.choice import rng_for, Log, pick, weighted
 from simkit.sched import SimAbort
+from simkit import simtime
 from simkit.shrink import shrink_list_at, replace_at
 from . import BaseEngine, Violation
 from .ports_conc import make_msg, ident, mutate
@@ -279,6 +280,7 @@ class Lifecycle(BaseEngine):
 
     def _restore(self):
         saved = getattr(self, '_saved', None)
+        simtime.deactivate()
         if saved:
             mports.time, mports.random = saved[0:2]
             mports.set_sleep_time(saved[2])
@@ -295,6 +297,7 @@ class Lifecycle(BaseEngine):
         mports.time = TimeShim(clock)
         mports.random = RandomShim(plan.get('perms', []))
         mports.set_sleep_time(plan['sleep_time'])
+        simtime.activate(lambda: clock.now, mports.time.sleep)
         gc.disable()
         viol = None
         try:
